@@ -44,7 +44,13 @@ class Monitor:
     def check_block(self, cs, chain, bid, w, order_name):
         c = self.c
         exp = chain.replay_uncached(bid)
-        got = real_uto(cs, bid)
+        try:
+            got = real_uto(cs, bid)
+        except KeyError:
+            # the state keeps no unspent set for this block under the documented attribute (a design that drops old snapshots
+            # is not by itself a violation): nothing to compare here; what is built ON such a block is compared as usual
+            c["blocks_without_a_reported_unspent_set"] = c.get("blocks_without_a_reported_unspent_set", 0) + 1
+            return {}
         c["uto_maps_compared"] += 1
         if got != exp:
             extra = sorted(set(got) - set(exp))[:2]
@@ -54,7 +60,16 @@ class Monitor:
                        chain.blocks[bid].height, order_name, len(set(got) - set(exp)), [(a.hex()[:8], b) for a, b in extra],
                        len(set(exp) - set(got)), [(a.hex()[:8], b) for a, b in missing],
                        sum(1 for k in exp if k in got and got[k] != exp[k])), w)
-        pkb = cs.public_key_balances_by_hash[bid]
+        exp_bal = {}
+        for r, (v, k) in exp.items():
+            t, refs = exp_bal.get(k, (0, []))
+            exp_bal[k] = (t + v, refs + [r])
+        try:
+            pkb = cs.public_key_balances_by_hash[bid]
+        except Exception as e:
+            self.v("balances-cannot-be-reported-for-a-stored-block", "block h=%d (%s order): asking the chain state for the per-key "
+                   "balances at a stored block raises %s: %s" % (chain.blocks[bid].height, order_name, type(e).__name__, str(e)[:80]), w)
+            return exp_bal
         c["balance_maps_compared"] += 1
         exp_bal = {}
         for r, (v, k) in exp.items():
@@ -80,7 +95,7 @@ class Monitor:
                     chain.blocks[bid].height, exp_bal[k][0]), w)
         return exp_bal
 
-    def run_order(self, world, order, w, order_name, validate, rng, check_every=True):
+    def run_order(self, world, order, w, order_name, validate, rng, check_every=True, light=False):
         from skepticoin.coinstate import CoinState
         from skepticoin.wallet import Wallet
         chain = world.chain
@@ -104,7 +119,15 @@ class Monitor:
             self.c["adds"] += 1
             if cs.current_chain_hash != prev_head and rb.prev != prev_head:
                 self.c["reorganisations"] += 1
-            snaps.append((cs, gen.fingerprint(cs)))
+            if not light or n % 40 == 0:
+                snaps.append((cs, gen.fingerprint(cs)))
+            if light:
+                # very long histories: full checks on a subset of the arrivals (every 10th and the last 20)
+                if n % 10 == 0 or n >= len(order) - 20:
+                    self.check_block(cs, chain, bid, w, order_name)
+                    for ob in rng.sample(order[:n + 1], min(2, n + 1)):
+                        self.check_block(cs, chain, ob, w, order_name)
+                continue
             if check_every or n == len(order) - 1:
                 exp_bal = self.check_block(cs, chain, bid, w, order_name)
                 # a couple of older blocks, re-read from the newest state
@@ -201,6 +224,43 @@ def run_tree(mon, rng, nblocks, norders, seed_name, exhaustive_orders=False, tal
                             "tx_per_block": [len(world.chain.blocks[b].txs) - 1 for b in ids], "orders": len(orders)})
 
 
+def deep_reorganisation(mon, rng):
+    """a chain of 104-130 blocks, a competing chain from (near) genesis that overtakes it -- a reorganisation more than 100
+    blocks deep -- and then LATE blocks on blocks buried deep in the abandoned chain, spending outputs that exist only there"""
+    world = gen.World(rng)
+    L = rng.choice([104, 112, 130])
+
+    def extend(pid, n, tx_prob):
+        out = []
+        for _ in range(n):
+            parent = world.chain.blocks[pid]
+            rtxs = []
+            if rng.random() < tx_prob:
+                t = world.make_rtx(pid, rng)
+                if t is not None:
+                    rtxs.append(t)
+            rb, real = world.assemble(pid, rtxs, parent.ts + rng.choice([1, 60]), rng.choice(world.keys)[1], route="ref")
+            # (kept out of the generator's own real state: the arrival-order run below is where the code under test adds it)
+            b = world.accept(rb, real, cs=world.cs)
+            out.append(b)
+            pid = b
+        return out
+    A = extend(world.gid, L, 0.3)
+    if len(A) < L:
+        return
+    fork = rng.choice([world.gid, A[1], A[4]])
+    B = extend(fork, L + 1 - world.chain.blocks[fork].height, 0.1)
+    late = []
+    for base in (A[19], A[29], A[rng.randrange(40, L - 5)], A[19]):
+        late += extend(base, rng.choice([1, 2]), 0.9)
+    ids = A + B + late
+    mon.c["trees"] += 1
+    mon.c["deep_reorganisation_trees"] = mon.c.get("deep_reorganisation_trees", 0) + 1
+    w = {"blocks": gen.blocks_hex(world, ids), "order": list(range(len(ids)))}
+    mon.digests.add(digest("deep", b"".join(ids)))
+    mon.run_order(world, ids, w, "generation", validate=False, rng=rng, light=True)
+
+
 def replay(mon, w, rng):
     """re-executes a recorded tree/order against the current code"""
     world = gen.World(rng)
@@ -226,6 +286,8 @@ def run_shard(spec):
             run_tree(mon, rng, rng.choice([4, 5, 6]), 0, "s%d" % j, exhaustive_orders=True)
         for j in range(1 if quick else 6):
             run_tree(mon, rng, rng.choice([44, 70, 100]), 2, "tall%d" % j, tall=True)
+        if spec["shard"] % 2 == 0 or not quick:
+            deep_reorganisation(mon, rng)
     return {"evaluations": mon.c["adds"], "digests": sorted(mon.digests), "violations": mon.viol, "counters": mon.c,
             "samples": mon.samples}
 
@@ -240,6 +302,7 @@ def finalize(m, tier):
         "floors": [("arrival_orders", c.get("arrival_orders", 0), 100), ("uto_maps_compared", c.get("uto_maps_compared", 0), 2000),
                    ("blocks_with_transactions", c.get("blocks_with_transactions", 0), 200),
                    ("reorganisations", c.get("reorganisations", 0), 50),
-                   ("snapshots_rechecked", c.get("snapshots_rechecked", 0), 5000), ("tall_trees", c.get("tall_trees", 0), 10)],
+                   ("snapshots_rechecked", c.get("snapshots_rechecked", 0), 5000), ("tall_trees", c.get("tall_trees", 0), 10),
+                   ("deep_reorganisation_trees", c.get("deep_reorganisation_trees", 0), 6)],
         "extra": {"auxiliary_lane": "one shard runs under -X dev -X faulthandler (CPython debug allocator); auxiliary only"},
     }
